@@ -112,12 +112,15 @@ func (c verifCam) FPS() int  { return c.fps }
 // acknowledged on stdout:
 //   new <outdir> <constant 0|1> <resx> <resy> [<device name length>]   start <thresh>   write <value>   stop   Stop
 //   deltemp <dir>   exit
+//   start2 <thresh>   write2 <value>   stop2 : the same on a second recorder for the same output directory
+//   (as the test-recording recorder next to the motion recorder)
 func verifFileRec() int {
 	// every system call of this driver is made by one OS thread, so that the harness can
 	// count them (strace's injection counter is per thread)
 	runtime.LockOSThread()
 	in := bufio.NewScanner(os.Stdin)
-	var rec *CPTVFileRecorder
+	var rec, rec2 *CPTVFileRecorder
+	var conf *Config
 	var cam verifCam
 	for in.Scan() {
 		f := strings.Fields(in.Text())
@@ -130,7 +133,7 @@ func verifFileRec() int {
 			x, _ := strconv.Atoi(f[3])
 			y, _ := strconv.Atoi(f[4])
 			cam = verifCam{x, y, 9}
-			conf := &Config{OutputDir: f[1], DeviceName: "verif"}
+			conf = &Config{OutputDir: f[1], DeviceName: "verif"}
 			if len(f) > 5 {
 				// a configured device name of the given length (the CPTV header takes at most 255 bytes)
 				n, _ := strconv.Atoi(f[5])
@@ -156,6 +159,24 @@ func verifFileRec() int {
 			err = rec.WriteFrame(fr)
 		case "stop":
 			err = rec.StopRecording()
+		case "start2":
+			if rec2 == nil {
+				rec2 = NewCPTVFileRecorder(conf, cam, "flir", "lepton3", 1234, "1.2.3")
+			}
+			th, _ := strconv.Atoi(f[1])
+			err = rec2.StartRecording(cptvframe.NewFrame(cam), uint16(th))
+		case "write2":
+			v, _ := strconv.Atoi(f[1])
+			fr := cptvframe.NewFrame(cam)
+			for y := range fr.Pix {
+				for x := range fr.Pix[y] {
+					fr.Pix[y][x] = uint16(v)
+				}
+			}
+			fr.Status.TimeOn = time.Duration(v) * time.Millisecond
+			err = rec2.WriteFrame(fr)
+		case "stop2":
+			err = rec2.StopRecording()
 		case "Stop":
 			rec.Stop()
 		case "deltemp":
@@ -343,7 +364,9 @@ func verifRace() int {
 // been handled, another snapshot is requested: still the last completed frame.
 // With a fourth argument k > 0, a test recording is requested (service.TakeTestRecording) after
 // every k-th frame has been completed; the frames at which requests were made are reported.
-// argv: <config dir> <frames> <clear every> [<test recording every>]
+// With a fifth argument b > 0, after every b-th frame a BAD frame is sent (upper half of a new value, a zero
+// pixel in the middle row): once it has been rejected, the snapshot is still the last completed frame.
+// argv: <config dir> <frames> <clear every> [<test recording every> [<bad frame every>]]
 func verifSnapSeq() int {
 	args := strings.Fields(os.Getenv("VERIF_ARGS"))
 	if len(args) < 3 {
@@ -355,6 +378,11 @@ func verifSnapSeq() int {
 	if len(args) > 3 {
 		testEvery, _ = strconv.Atoi(args[3])
 	}
+	badEvery := 0
+	if len(args) > 4 {
+		badEvery, _ = strconv.Atoi(args[4])
+	}
+	var afterBad, staleAfterBad int
 	var testReqs []int
 	conf, err := ParseConfig(args[0])
 	if err != nil {
@@ -436,6 +464,21 @@ func verifSnapSeq() int {
 					testReqs = append(testReqs, i)
 				}
 			}
+			if badEvery > 0 && i%badEvery == 0 {
+				bad := make([]byte, len(raw))
+				copy(bad, raw[:640])
+				for p := 640; p+1 < len(bad); p += 2 {
+					bad[p], bad[p+1] = 0xc3, 0x50
+				}
+				mid := 640 + 2*(60*160+80)
+				bad[mid], bad[mid+1] = 0, 0
+				conn.Write(bad)
+				time.Sleep(3 * time.Millisecond)
+				afterBad++
+				if !snap(v, fmt.Sprintf("after frame %d and a bad frame", i)) {
+					staleAfterBad++
+				}
+			}
 			if clearEvery > 0 && i%clearEvery == 0 {
 				conn.Write([]byte(clearBuffer))
 				time.Sleep(3 * time.Millisecond)
@@ -454,6 +497,6 @@ func verifSnapSeq() int {
 	herr := handleConn(conn, conf)
 	<-feederDone
 	verifOut(map[string]interface{}{"ev": "snapseq-summary", "checks": checks, "stale": stale, "after_clear": afterClear,
-		"stale_after_clear": staleAfterClear, "first": first, "err": fmt.Sprint(herr), "test_requests_after_frames": testReqs})
+		"stale_after_clear": staleAfterClear, "after_bad": afterBad, "stale_after_bad": staleAfterBad, "first": first, "err": fmt.Sprint(herr), "test_requests_after_frames": testReqs})
 	return 0
 }
